@@ -1777,6 +1777,27 @@ where
         }
 
         let packet_id_opt = packet.packet_id();
+
+        // Check receive_maximum for sending (QoS 1 and 2 packets) before any topic alias is
+        // recorded: the peer never sees the alias of a packet that is refused here
+        if packet.qos() == Qos::AtLeastOnce || packet.qos() == Qos::ExactlyOnce {
+            if let Some(max) = self.publish_send_max {
+                if self.publish_send_count >= max {
+                    events.push(GenericEvent::NotifyError(MqttError::ReceiveMaximumExceeded));
+                    if let Some(packet_id) = packet_id_opt {
+                        if self.pid_man.is_used_id(packet_id) {
+                            self.pid_man.release_id(packet_id);
+                            self.store.erase_publish(packet_id);
+                            self.pid_puback.remove(&packet_id);
+                            self.pid_pubrec.remove(&packet_id);
+                            events.push(GenericEvent::NotifyPacketIdReleased(packet_id));
+                        }
+                    }
+                    return events;
+                }
+            }
+        }
+
         let ta_opt = Self::get_topic_alias_from_props(packet.props());
         if packet.topic_name().is_empty() {
             // process manually provided TopicAlias
@@ -1860,22 +1881,9 @@ where
             }
         }
 
-        // Check receive_maximum for sending (QoS 1 and 2 packets)
+        // Count the exchange against the peer's Receive Maximum (checked above)
         if packet.qos() == Qos::AtLeastOnce || packet.qos() == Qos::ExactlyOnce {
-            if let Some(max) = self.publish_send_max {
-                if self.publish_send_count >= max {
-                    events.push(GenericEvent::NotifyError(MqttError::ReceiveMaximumExceeded));
-                    if let Some(packet_id) = packet_id_opt {
-                        if self.pid_man.is_used_id(packet_id) {
-                            self.pid_man.release_id(packet_id);
-                            self.store.erase_publish(packet_id);
-                            self.pid_puback.remove(&packet_id);
-                            self.pid_pubrec.remove(&packet_id);
-                            events.push(GenericEvent::NotifyPacketIdReleased(packet_id));
-                        }
-                    }
-                    return events;
-                }
+            if self.publish_send_max.is_some() {
                 if let Some(packet_id) = packet_id_opt {
                     if self.publish_send_counted.insert(packet_id) {
                         self.publish_send_count += 1;
